@@ -190,13 +190,29 @@ func Gen(s *choice.Stream, o Options) *Tree {
 			return p, r
 		}
 	}
+	// Which files (other than the root) start with an extends statement is
+	// drawn first, so that the root can be made to refer to one of them before
+	// anything else (a rendered or imported file that extends is an error the
+	// builder has to report whatever comes first).
+	extending := make([]bool, len(t.Order))
+	var extFiles []string
+	for idx := range t.Order {
+		if idx > 0 && extAnywhere && s.Chance(1, 4) {
+			extending[idx] = true
+			extFiles = append(extFiles, t.Order[idx])
+		}
+	}
+	forcedFirst := ""
+	if len(extFiles) > 0 && s.Chance(1, 2) {
+		forcedFirst = extFiles[s.N(len(extFiles))]
+	}
 	nmacro := 0
 	for idx, name := range t.Order {
 		var b strings.Builder
 		// The root may extend another file; with "extends-anywhere" so may any
 		// other file (rendering or importing such a file is an error the
 		// builder has to report).
-		if len(t.Order) > 1 && (idx == 0 && feat("extends", 1, 4) || idx > 0 && extAnywhere && s.Chance(1, 4)) {
+		if len(t.Order) > 1 && (idx == 0 && forcedFirst == "" && feat("extends", 1, 4) || extending[idx]) {
 			target := pickTarget(name, idx)
 			if target != "" {
 				p, r := mkPath(name, target)
@@ -207,6 +223,24 @@ func Gen(s *choice.Stream, o Options) *Tree {
 			}
 		}
 		ni := s.Small(2)
+		if idx == 0 && forcedFirst != "" {
+			// The first reference of the whole build: a file that extends,
+			// rendered with or without default, or imported.
+			ni = 0
+			r := Ref{Path: "/" + forcedFirst, Target: forcedFirst}
+			switch s.N(3) {
+			case 0:
+				r.Kind = "render-default"
+				fmt.Fprintf(&b, "{{ render %q default \"D\" }}", r.Path)
+			case 1:
+				r.Kind = "render"
+				fmt.Fprintf(&b, "{{ render %q }}", r.Path)
+			case 2:
+				r.Kind = "import"
+				fmt.Fprintf(&b, "{%% import %q %%}", r.Path)
+			}
+			t.Refs[name] = append(t.Refs[name], r)
+		}
 		for k := 0; k < ni; k++ {
 			target := pickTarget(name, idx)
 			if target == "" {
